@@ -49,7 +49,10 @@ def c01(tier):
     parsecheck.parse_property_check(
         "C01", tier, inputs, cfgs, {"VALUE", "MODEL"},
         rule="f64 inputs from families G1 (plain), G2 (midpoint-derived variants for every/selected exponent field), "
-             "G4 (seams), G5 (extremes), G6 (run-structured); distinct = distinct (int,frac,exp) triples; "
+             "G4 (seams), G5 (extremes), G6 (run-structured), G8 (exact <= 19-digit ties, both parities), G9 (low-decade "
+             "midpoints), G10 (integer ties + one bit), G11 (every binade beyond the range ends), G12 (every decade, 17..19-digit "
+             "truncations), G13 (carry into the next binade incl. subnormal -> normal), G14 (d x 10^q for every q); "
+             "distinct = distinct (int,frac,exp) triples; "
              "every record is adjudicated by TLC with IEEE!Judge",
         level_note="TLC evaluates the declarative rounding definition (IEEE.tla) on each (input, bits) pair observed "
                    "from the real code; trusted: TLC, BigNat (model-checked against native ints), JSON limb codec", mc=mc)
